@@ -171,7 +171,16 @@ class StaleStateHistories:
                     K.ensure_eq(tag, u, K.val(K.call(o.disp, modifies=_state_tensors(o))), text=Q9D)
             elif op == "inverse":
                 inv = K.call(t.inverse, update_buffers=True, protect=[t])
-                K.ensure_returns(inv, text=Q9)
+                if K.ensure_returns(inv, text=Q9):
+                    # the displacement buffered in the new inverse is that of the inverse map of the *current* state: the
+                    # same as building the inverse of a fresh model first and computing its buffers afterwards
+                    ui = K.call(inv.disp, modifies=_state_tensors(inv))
+                    o = oracle()
+                    oi = o.inverse(update_buffers=False)
+                    oi.update()
+                    if K.ensure_returns(ui, text=Q9D):
+                        K.ensure_eq(tag + ":inverse-disp", ui, K.val(K.call(oi.disp, modifies=_state_tensors(oi))),
+                                    text=Q9D + " [disp() of an inverse created with update_buffers=True is the inverse displacement of the current state]")
             elif op == "condition_":
                 c = K.real(f"c{i + 1}", draw=(Fraction(1, 2), 2))
                 ghost["cond"] = c
@@ -199,12 +208,18 @@ class Regridding:
     def cases(self, tier):
         for kind in ("ddf", "ffd"):
             yield {"model": kind}
+        # dense models re-gridded onto a different domain (bounded clause: the path rounds coordinates)
+        for kind in ("ddf", "svf"):
+            for how in ("crop", "pad", "shift", "finer-shifted"):
+                yield {"model": kind, "domain": how}
 
     def run(self, case, K):
         from contracts.c11_c13_flow import affine_disp, invariant_map
 
         kind = case["model"]
         D = 2
+        if "domain" in case:
+            return self.other_domain(case, K)
         if kind == "ddf":
             g, gs = make_grid(K, "g", D, sizes=(4, 3), align_corners=True)
             P, tr = invariant_map(K, "m", D)
@@ -239,3 +254,44 @@ class Regridding:
             if K.ensure_returns(u1, text=Q9G):
                 a, b = K.val(u0), K.val(u1)
                 K.ensure_eq("same-field", b[..., ::2, ::2], a, text=Q9G + " [the refined spline equals the original at every old sample position]")
+
+    def other_domain(self, case, K):
+        """grid_() onto a grid covering a different domain: world points in the interior of both domains are mapped to the
+        same world points before and after (world-affine displacement / zero velocity offset: exactly representable)."""
+        from deepali.core.grid import Axes, Grid
+
+        kind, how = case["model"], case["domain"]
+        if K.mode == "sym":
+            K.ensure("bounded-only", E.TRUE, text="(evaluated in bounded mode: resampling rounds coordinates to 12 decimals)", kind="helper")
+            return
+        r = K.rng
+        a = r.uniform(-0.6, 0.6)
+        R = torch.tensor([[np.cos(a), -np.sin(a)], [np.sin(a), np.cos(a)]], dtype=torch.float32)
+        g = Grid(size=(9, 8), spacing=(r.uniform(0.6, 1.5), r.uniform(0.6, 1.5)), center=(r.uniform(-3, 3), r.uniform(-3, 3)), direction=R)
+        if how == "crop":
+            g2 = g.crop(num=(1, 2, 1, 0))
+        elif how == "pad":
+            g2 = g.pad(num=(2, 1, 0, 2))
+        elif how == "shift":
+            g2 = g.center(g.center() + g.direction() @ (g.spacing() * torch.tensor([1.5, -1.0])))
+        else:
+            g2 = g.resize((13, 11)).center(g.center() + g.direction() @ (g.spacing() * torch.tensor([0.8, 0.6])))
+        # world-affine displacement u(x) = A x + b (small), sampled on g in the model's own representation
+        A = torch.tensor([[r.uniform(-0.05, 0.05) for _ in range(2)] for _ in range(2)])
+        b = torch.tensor([r.uniform(-0.3, 0.3) for _ in range(2)])
+        K.env.update({"A": A.tolist(), "b": b.tolist(), "angle": a})
+        M = g.transform(Axes.GRID, Axes.WORLD)
+        xw = g.coords(normalize=False).float().reshape(-1, 2) @ M[:, :2].T + M[:, 2]  # world coordinates of grid points
+        uw = xw @ A.T + (b if kind == "ddf" else 0 * b)
+        ucube = g.transform(Axes.WORLD, Axes.from_grid(g), vectors=True)
+        uc = (uw @ ucube[:2, :2].T).T.reshape(1, 2, *g.shape)
+        t = fresh(kind, g, uc.clone())
+        pts = g.center() + (torch.tensor([[r.uniform(-1, 1), r.uniform(-1, 1)] for _ in range(5)]) * g.spacing()) @ g.direction().T
+        pts = pts.unsqueeze(0)
+        w0 = K.call(t.points, pts, axes=Axes.WORLD)
+        res = K.call(t.grid_, g2, modifies=_state_tensors(t))
+        if not (K.ensure_returns(w0) and K.ensure_returns(res, text=Q9G)):
+            return
+        w1 = K.call(t.points, pts, axes=Axes.WORLD)
+        if K.ensure_returns(w1, text=Q9G):
+            K.ensure_eq("same-world-map", w1, K.val(w0), text=Q9G + f" [{how}: world points in the interior of both domains]")
